@@ -69,7 +69,11 @@ type c07Params struct {
 	// Prefill: before A and B are opened, a connection P receives its three messages
 	// and is closed, so that A and B start from pools that hold P's objects
 	Prefill bool
-	Prop    string // "" = C07; otherwise the property the same oracle is reported under reported under C05 (a pooled object owned twice is shared, unsynchronised, by two connections)
+	// Mixed: single-frame compressed messages alternate with uncompressed ones
+	// (a peer that compresses only what is worth it); programs may stop reading a
+	// message exactly at its last byte without asking for the end (readExact)
+	Mixed bool
+	Prop  string // "" = C07; otherwise the property the same oracle is reported under reported under C05 (a pooled object owned twice is shared, unsynchronised, by two connections)
 }
 
 func (p c07Params) name() string {
@@ -78,6 +82,9 @@ func (p c07Params) name() string {
 	}
 	if p.Prefill {
 		return strings.Join(p.Prog, ",") + "/" + p.K.String() + "+prefill"
+	}
+	if p.Mixed {
+		return strings.Join(p.Prog, ",") + "/" + p.K.String() + "+mixed"
 	}
 	return strings.Join(p.Prog, ",") + "/" + p.K.String()
 }
@@ -111,6 +118,7 @@ var c07Streams = map[string][]byte{}
 const c07MaxRead = 3
 
 var c07BFinalStreams bool // set by the program setup for the execution being built
+var c07MixedStreams bool
 
 func c07Open(st *c07State, k connCfg, tag byte, nmsgs int) *c07Conn {
 	x := &c07Conn{tag: tag, p: vpipe.New(), msgLen: c07MsgLen}
@@ -118,14 +126,20 @@ func c07Open(st *c07State, k connCfg, tag byte, nmsgs int) *c07Conn {
 	if !k.Flate {
 		x.p.MaxRead = 48 // 300-byte frames: still well inside a frame, far fewer transport reads
 	}
-	key := fmt.Sprintf("%s/%c/%d/%v", k.String(), tag, nmsgs, c07BFinalStreams)
+	key := fmt.Sprintf("%s/%c/%d/%v/%v", k.String(), tag, nmsgs, c07BFinalStreams, c07MixedStreams)
 	in, ok := c07Streams[key]
 	if !ok {
 		// the peer's byte stream is the same in every execution: build it once
 		def := &deflate.Deflater{NoContextTakeover: k.readerNoTakeover()}
 		for i := 0; i < nmsgs; i++ {
 			pl := c07Msg(tag)
-			if k.Flate && c07BFinalStreams {
+			if k.Flate && c07MixedStreams {
+				if i%2 == 0 {
+					in = append(in, peerFrame(k, frame.Frame{Fin: true, Rsv1: true, Opcode: frame.OpText, Payload: def.Message(pl)})...)
+				} else {
+					in = append(in, peerData(k, frame.OpText, true, pl)...)
+				}
+			} else if k.Flate && c07BFinalStreams {
 				cp := def.MessageBFinal(pl)
 				in = append(in, peerFrame(k, frame.Frame{Fin: false, Rsv1: true, Opcode: frame.OpText, Payload: cp[:len(cp)-1]})...)
 				in = append(in, peerData(k, frame.OpCont, true, cp[len(cp)-1:])...)
@@ -234,6 +248,18 @@ func c07Do(st *c07State, k connCfg, op string) {
 		return nil
 	}
 	switch act {
+	case "readExact":
+		// the application knows the message length: it reads exactly that many bytes
+		// and goes on to the next message without asking for io.EOF
+		if x.r == nil {
+			_, r, err := x.c.Reader(bg)
+			if err != nil {
+				return
+			}
+			x.r, x.got = r, 0
+		}
+		readSome(x.msgLen - x.got)
+		x.last, x.r = x.r, nil
 	case "readAll", "readPartial":
 		if x.r == nil {
 			_, r, err := x.c.Reader(bg)
@@ -302,6 +328,13 @@ func c07Do(st *c07State, k connCfg, op string) {
 		} else {
 			x.c.Read(bg)
 		}
+	case "wsjsonBad":
+		// a document that is not valid JSON for the target: an error, and the connection is closed with 1007
+		if x.r != nil {
+			return
+		}
+		var n int
+		wsjson.Read(bg, x.c, &n)
 	case "wsjson":
 		if x.r != nil {
 			return
@@ -330,6 +363,7 @@ func c07Setup(prm c07Params) func(c *fw.Ctx, name string) explore.Setup {
 			vsync.PoolLogging = true
 			w.GoHarness("main", true, func() {
 				c07BFinalStreams = prm.BFinal
+				c07MixedStreams = prm.Mixed
 				if prm.Prefill {
 					x := c07Open(st, prm.K, 'P', 3)
 					for i := 0; i < 3; i++ {
@@ -762,6 +796,27 @@ func c07Scenarios(tier string) []scenario {
 			if k.Flate && (k.Client == k.CNCT || tier == "thorough") {
 				prm.BFinal = true
 				scs = append(scs, scenario{Name: prm.name(), Cfg: explore.Config{P: 0, Horizon: 60e9}, Setup: c07Setup(prm), Group: fmt.Sprintf("prog-bfinal/%s/%d", k.String(), i%4)})
+			}
+		}
+		if k.Flate {
+			// mixed streams: programs of up to 4 reads (whole, exact, partial) and closes on A and B
+			var mixed [][]string
+			var genM func(cur []string)
+			genM = func(cur []string) {
+				if len(cur) > 0 {
+					mixed = append(mixed, append([]string(nil), cur...))
+				}
+				if len(cur) == 3 || (tier == "thorough" && len(cur) == 4) {
+					return
+				}
+				for _, op := range []string{"A.readExact", "A.readAll", "B.readAll", "B.readExact", "A.closeNow", "A.readPartial", "A.wsjsonBad", "B.wsjson"} {
+					genM(append(cur, op))
+				}
+			}
+			genM(nil)
+			for i, pr := range mixed {
+				prm := c07Params{K: k, Prog: pr, Mixed: true}
+				scs = append(scs, scenario{Name: prm.name(), Cfg: explore.Config{P: 0, Horizon: 60e9}, Setup: c07Setup(prm), Group: fmt.Sprintf("prog-mixed/%s/%d", k.String(), i%4)})
 			}
 		}
 		for _, cl := range []string{"CloseNow", "peerClose", "ctx"} {
